@@ -25,6 +25,7 @@ type c10cfg struct {
 	list               string   // declared-list shape
 	names              []string // as given (with duplicates)
 	structs            bool
+	mixed              string         // "" | "secrets+tag" (Secrets [a,b] plus a struct tagged a) | "aba" (one struct with fields a, b, a)
 	cache              string         // none empty partial complete stale malformed readerr
 	script             map[string]int // failures before success; -1 = forever
 	ctx                string         // none expired 5ms 3s 10s
@@ -68,6 +69,11 @@ type sAB struct {
 }
 type sA struct {
 	A string `setec:"a"`
+}
+type sABA struct {
+	A  string `setec:"a"`
+	B  []byte `setec:"b"`
+	A2 string `setec:"a"`
 }
 
 func runC10(t *testing.T, c c10cfg) (out c10out) {
@@ -147,7 +153,13 @@ func runC10(t *testing.T, c c10cfg) (out c10out) {
 		cfg := setec.StoreConfig{Client: svc, Cache: cache, PollInterval: -1, Logf: func(string, ...any) {}}
 		var vab sAB
 		var va sA
-		if c.structs {
+		var vaba sABA
+		if c.mixed == "secrets+tag" {
+			cfg.Secrets = []string{"a", "b"}
+			cfg.Structs = []setec.Struct{{Value: &va}}
+		} else if c.mixed == "aba" {
+			cfg.Structs = []setec.Struct{{Value: &vaba}}
+		} else if c.structs {
 			if len(uniq) == 2 {
 				cfg.Structs = []setec.Struct{{Value: &vab}}
 			} else {
@@ -166,7 +178,11 @@ func runC10(t *testing.T, c c10cfg) (out c10out) {
 			for n := range uniq {
 				out.values[n] = string(st.Secret(n).Get())
 			}
-			if c.structs {
+			if c.mixed == "secrets+tag" {
+				out.fields = va.A
+			} else if c.mixed == "aba" {
+				out.fields = vaba.A + "|" + string(vaba.B) + "|" + vaba.A2
+			} else if c.structs {
 				if len(uniq) == 2 {
 					out.fields = vab.A + "|" + string(vab.B)
 				} else {
@@ -259,7 +275,15 @@ func c10Check(c c10cfg, o c10out) (kind, msg string) {
 				return "value", fmt.Sprintf("Secret(%q) = %q, want %q", n, o.values[n], want)
 			}
 		}
-		if c.structs {
+		if c.mixed == "secrets+tag" {
+			if o.fields != o.values["a"] {
+				return "struct-fields", fmt.Sprintf("struct field %q, want %q", o.fields, o.values["a"])
+			}
+		} else if c.mixed == "aba" {
+			if want := o.values["a"] + "|" + o.values["b"] + "|" + o.values["a"]; o.fields != want {
+				return "struct-fields", fmt.Sprintf("struct fields %q, want %q", o.fields, want)
+			}
+		} else if c.structs {
 			want := o.values["a"]
 			if len(all) == 2 {
 				want += "|" + o.values["b"]
@@ -325,12 +349,14 @@ func checkC10(t *testing.T, env *report.Env, rep *report.Report) {
 		"service scripts per secret: success after k failures for k in {0,1,2,3,12,13,14}, or failure forever; failures are plain errors or look like timeouts that are not the caller's; the service either honours the caller's context or keeps answering from its script after it ended",
 	}
 	sec := rep.Add(&report.Section{Name: "construction-all-configurations", Engine: "enum", Exhaustive: true, Extra: map[string]int64{}, Outcomes: map[string]int64{},
-		Rule: "declared-list shape(5) × cache state(8) × per-secret failure script(8 each) × context(5) × service error style(4), each one NewStore execution under virtual time against the retry model; non-trivial = configurations in which at least one secret has to be fetched and at least one request fails"})
+		Rule: "declared-list shape(8, incl. names repeated across Secrets and struct tags) × cache state(8) × per-secret failure script(8 each) × context(5) × service error style(4), each one NewStore execution under virtual time against the retry model; non-trivial = configurations in which at least one secret has to be fetched and at least one request fails"})
 	lists := []struct {
 		name    string
 		names   []string
 		structs bool
-	}{{"[a]", []string{"a"}, false}, {"[a,b]", []string{"a", "b"}, false}, {"[a,a]", []string{"a", "a"}, false}, {"[b,a,b]", []string{"b", "a", "b"}, false}, {"struct{a,b}", []string{"a", "b"}, true}, {"struct{a}", []string{"a"}, true}}
+		mixed   string
+	}{{"[a]", []string{"a"}, false, ""}, {"[a,b]", []string{"a", "b"}, false, ""}, {"[a,a]", []string{"a", "a"}, false, ""}, {"[b,a,b]", []string{"b", "a", "b"}, false, ""}, {"struct{a,b}", []string{"a", "b"}, true, ""}, {"struct{a}", []string{"a"}, true, ""},
+		{"[a,b]+struct{a}", []string{"a", "b"}, true, "secrets+tag"}, {"struct{a,b,a}", []string{"a", "b"}, true, "aba"}}
 	caches := []string{"none", "empty", "partial", "complete", "stale", "malformed", "invalid-entry", "readerr"}
 	scripts := []int{0, 1, 2, 3, 12, 13, 14, -1}
 	if env.Thorough() {
@@ -357,7 +383,7 @@ func checkC10(t *testing.T, env *report.Env, rep *report.Report) {
 							if !env.Mine(idx) {
 								continue
 							}
-							c := c10cfg{list: l.name, names: l.names, structs: l.structs, cache: ca, script: map[string]int{"a": sa}, ctx: cx, ignoreCtx: mode&1 != 0, ctxLike: mode&2 != 0}
+							c := c10cfg{list: l.name, names: l.names, structs: l.structs, mixed: l.mixed, cache: ca, script: map[string]int{"a": sa}, ctx: cx, ignoreCtx: mode&1 != 0, ctxLike: mode&2 != 0}
 							if two {
 								c.script["b"] = sb
 							}
